@@ -23,6 +23,15 @@ CHECKS = {
  "C15": ("model_checking", "§2 C15", HIST,
    "Same exploration on a world with two resources: both resources are read back after every operation (incl. clone, clone_from, serde round trips, entity ops) and written through get_mut, view_resources and query resource views in different orders.",
    "two resources; resource-view grid (subset x order x kind) is part of the C03/C15 grid engine when built"),
+ "C06": ("model_checking", "§2 C06", HIST,
+   "BFS in which every reachable state gets a lock-step twin made by a serde round trip in each of three encodings (JSON text = row-wise, compact tokens = column-wise, human-readable tokens); round trip must succeed, compare equal both ways and preserve slots/generations/free list; every later operation is applied to both worlds, which must issue identical identifiers and hold identical contents; round trips and clones are also ordinary operations.",
+   "serde_json and serde_assert as the two formats; lock-step identity is not demanded across clear() over several populated tables (identifier release order there depends on heap addresses, DESIGN.md)"),
+ "C10": ("model_checking", "§2 C10", HIST + " + pairwise clone/clone_from engine",
+   "(a) BFS with clone lock-step twins, snapshots, clone_from and swap as operations, the untouched world re-checked after every operation; (b) every ordered pair (src,dst) of a reachable state set: dst.clone_from(src) / src.clone(), contents, equality (clone), audits, address disjointness, then every operation of a 12-op alphabet on either side with the other side re-checked, then both drop orders.",
+   "state set for pairs bounded as reported; == demanded of clone() only (clone_from keeps emptied tables)"),
+ "C16": ("model_checking", "§2 C16", HIST + " (pair mode)",
+   "Every ordered pair of a reachable state set (values normalised to a function of identifier and component): reflexive, symmetric, equal implies same contents; every state against 12 single perturbations (value, resource, live set, component set): unequal in both directions. clone and round trips comparing equal are checked by C10/C06 runs.",
+   "state set bounded as reported"),
 }
 NOT_YET = {
  "C03": "check under construction (E2 view/filter grid)",
@@ -74,7 +83,7 @@ def main():
 
 TECH = {}
 ENGINES = [
- {"name": "hist", "path": "/verif/mc/hist", "serves_properties": ["C01", "C02", "C04", "C05", "C13", "C15"],
+ {"name": "hist", "path": "/verif/mc/hist", "serves_properties": ["C01", "C02", "C04", "C05", "C06", "C10", "C13", "C15", "C16"],
   "kind_free_text": "explicit-state BFS over operation histories executed on the real brood::World inside deterministic arenas, lock-step reference model, structural audit, drop ledger"},
 ]
 
